@@ -447,7 +447,7 @@ def run_ops(ctx, raw_enc, ops):
                 ps = ps[::-1] + ps[:1]
             elif variant == 2:
                 ps = tuple(ps)
-            h = Av(ps) if variant != 3 else Av.from_iterable(iter(ps)) if False else Av(list(ps))
+            h = Av(ps) if variant != 3 else (Av.from_iterable(iter(ps)) if op[1] % 8 == 3 else Av(q for q in ps))  # given lazily
             handles.append(h)
             ctx.count("op.rehandle")
         elif kind == "old_handle":
@@ -589,7 +589,7 @@ def rand_ops(rng, raw_plain, N, nops):
         elif kind == "clear":
             ops.append(["clear"])
         elif kind == "rehandle":
-            ops.append(["rehandle", rng.randrange(4)])
+            ops.append(["rehandle", rng.randrange(8)])
         elif kind == "old_handle":
             ops.append(["old_handle", rng.randrange(5)])
         elif kind == "other":
